@@ -556,6 +556,7 @@ class Ctx:
         self.fail_stack = None
         self.fs = {}                # virtual file system for io stubs: path string -> content (str) | ('err', msg)
         self.cwd = '/cwd'
+        self.links = {}             # virtual symlinks: absolute link path -> absolute target path
 
     # ------------------------------------------------------------ symbolic variables
     def bv(self, name, bits):
